@@ -462,6 +462,77 @@ def tokens (line : String) : List String := (line.splitOn " ").filter (· ≠ ""
 def isExtra (t : String) : Bool := t == "B" || t == "N" || t == "U"
 def parseDoc (objToks : List String) : Option Doc := (objToks.filter (!isExtra ·)).mapM parseObj
 
+/-! ## `d` lines: documents that REPEAT an id (Dup.lean).  Spec = the clauses that hold for every document:
+ids inside the full closure, `closedDB` (every selected element in, every stored id has a version whose present
+references are stored), every stored object IS an element of the document, Check passes when nothing dangles.
+Model (exact, GOMAXPROCS=1): ids, number of passes, and WHICH version is stored (the first element of the id that is
+selected or requested while the id is not yet stored). -/
+
+def seqStoredPass (e : Env) : List Obj → PCfg → List Obj → PCfg × List Obj
+  | [], c, a => (c, a)
+  | o :: q, c, a =>
+    let c' := finishW e 0 (Task.start o).size (pstep e 0 c)
+    seqStoredPass e q c' (if !c.st.has o.key && c'.st.has o.key then a ++ [o] else a)
+
+def seqStored (e : Env) (doc : Doc) : Nat → State → List Obj → Nat → Option (State × List Obj × Nat)
+  | 0, _, _, _ => none
+  | f+1, s, acc, passes =>
+    let (c, a) := seqStoredPass e doc (startPass doc s) acc
+    if c.st.flag then seqStored e doc f c.st a (passes + 1) else some (c.st, a, passes + 1)
+
+def parseIds (s : String) : Option (List Ref) :=
+  if s == "-" then some [] else (splitS ',' s).mapM fun t =>
+    match t.toList with
+    | c :: rest => do let k ← kindOf c; let i ← intOf rest; pure ⟨k, i⟩
+    | [] => none
+
+def judgeDup (keepTok : String) (doc : Doc) (rhs : List String) : String :=
+  let dang := !noDanglingB doc
+  let cls := s!"dupids-{if uniqueKeysB doc then "unique" else "repeated"}-{if dang then "dangling" else "closed"}"
+  match parseKeep keepTok, fieldOf "dup=" rhs, fieldOf "content=" rhs, fieldOf "par=" rhs with
+  | some (k, ks, _), some sq, some content, some par =>
+    let C := closure doc (specKeep ks)
+    if !closedB doc (specKeep ks) C then s!"DIFF {cls} spec-iteration-did-not-reach-a-closed-set" else
+    let runs := (splitS '/' sq).take 2 :: ((splitS ';' par).map fun r => splitS '/' r)
+    let specBad := runs.filterMap fun r =>
+      match r with
+      | [ids, chk] =>
+        match parseIds ids with
+        | none => some s!"unparsable-ids {ids}"
+        | some S =>
+          if S.any (fun r => !decide (r ∈ C)) then some s!"an-id-outside-the-closure-is-stored got={ids}"
+          else if !closedDB doc (specKeep ks) S then
+            some s!"result-is-not-closed-(selected-element-missing-or-no-version-of-a-stored-id-has-its-references-stored) got={ids}"
+          else if !dang && chk != "ok" then some s!"Check-fails got={ids}"
+          else none
+      | _ => some s!"extraction-fails {"/".intercalate r}"
+    match specBad with
+    | w :: _ => s!"SPEC {cls} {w}"
+    | [] =>
+    match parseContent content with
+    | none => s!"DIFF {cls} content-unparsable {content}"
+    | some got =>
+      if got.any (fun g => !(doc.any fun o => o.key == g.key && o.refs == g.refs)) then
+        s!"SPEC {cls} a-stored-object-is-not-an-element-of-the-document got={content}"
+      else
+      match seqStored ⟨true, k, 1⟩ doc (passFuel doc) State.init [] 0 with
+      | none => s!"DIFF {cls} model-out-of-fuel"
+      | some (s, stored, passes) =>
+        let mIds := keptStr doc s
+        let want := sortObjs stored
+        match splitS '/' sq with
+        | [ids, _, p] =>
+          if ids != mIds || p != toString passes then s!"DIFF {cls} sequential-run model={mIds}/{passes} impl={ids}/{p}"
+          else if got != want then
+            s!"DIFF {cls} stored-version model={"+".intercalate (want.map objStr)} impl={content}"
+          else s!"OK {cls}"
+        | _ => s!"DIFF {cls} unparsable-implementation-answer"
+  | _, _, _, _ =>
+    match rhs with
+    | "timeout" :: _ => s!"SPEC {cls} extraction-does-not-return"
+    | "crash" :: w => s!"SPEC {cls} extraction-crashes-the-process {" ".intercalate w}"
+    | _ => "BAD parse"
+
 def judgeLine (line : String) : String :=
   let toks := tokens line
   let lhs := toks.takeWhile (· ≠ "=>")
@@ -479,6 +550,10 @@ def judgeLine (line : String) : String :=
   | "p" :: _variant :: keepTok :: "|" :: objToks =>
     match parseDoc objToks with
     | some doc => judgePbf keepTok doc rhs
+    | none => "BAD parse"
+  | "d" :: keepTok :: "|" :: objToks =>
+    match parseDoc objToks with
+    | some doc => judgeDup keepTok doc rhs
     | none => "BAD parse"
   | "c" :: n :: keepTok :: "|" :: objToks =>
     match parseDoc objToks with
